@@ -88,13 +88,13 @@ pub fn all_variants() -> Vec<VariantSpec> {
     ]
 }
 
-/// Variants the registered tiers run next to `plain`. The `extra_w32*` variants are opt-in
-/// (`--opt variants=extra_w32,extra_w32_x2_and_challenger`): this harness's config keeps its MMCS
-/// on the W16 permutation, so the W32 table of a layer proof is empty and left out of the proof,
-/// and the backend's in-circuit verifier then refuses that proof ("non-primitive table count
-/// mismatch: expected 3, got 2") although it verifies natively - reported to the maintainer of
-/// this check as a candidate finding instead of being part of the default run.
-pub const DEFAULT_VARIANTS: [&str; 2] = ["extra_eq_challenger_x1", "extra_eq_challenger_x2"];
+/// Variants the registered tiers run next to `plain`. `extra_w32`: this harness's config keeps
+/// its MMCS on the W16 permutation, so the W32 table of a layer proof is empty and left out of
+/// the proof, and the backend's in-circuit verifier then refuses that proof ("non-primitive
+/// table count mismatch: expected 3, got 2") although it verifies natively - a recorded known
+/// finding (known_findings.json, `backend_variant:extra_w32:*:not_chainable`). The variant
+/// `extra_w32_x2_and_challenger` repeats it and stays opt-in (`--opt variants=...`).
+pub const DEFAULT_VARIANTS: [&str; 3] = ["extra_eq_challenger_x1", "extra_eq_challenger_x2", "extra_w32"];
 
 /// Variants of a tier / selection, closed under `same_as`.
 pub fn select(names: Option<&[&str]>) -> Vec<VariantSpec> {
